@@ -191,9 +191,13 @@ def respond (t : JoinTable) (op : String) (args : List Bytes) : String :=
      | some c =>
        let lp := splitCh '\n' lintPaths
        let args := (splitCh (Char.ofNat 31) pos).drop 1
+       -- standard input travels as a pseudo entry `<stdin>` of the file list (it is no file of the tree)
+       let allFiles := decodeTree files
+       let stdin := (Cli.lookup b!"<stdin>" allFiles).getD []
+       let tree := allFiles.filter fun pb => pb.1 != b!"<stdin>"
        let inv : Cli.Invocation := { output := optOf out, cmd := c, args := args, all := flags.contains 'a', check := flags.contains 'c',
-                                     version := optOf ver, year := year }
-       match CompareView.runWithView (tableEngine t) ⟨ue, us, un, we, ws, wn⟩ Parser.sortedOrd Parser.sortedOrd (fun p => lp.contains p) (verOk == ['1']) inv (decodeTree files) with
+                                     version := optOf ver, year := year, stdin := stdin }
+       match CompareView.runWithView (tableEngine t) ⟨ue, us, un, we, ws, wn⟩ Parser.sortedOrd Parser.sortedOrd (fun p => lp.contains p) (verOk == ['1']) inv tree with
        | none => "ok " ++ toHexArg b!"unmodelled"
        | some r => "ok " ++ (if r.ok then "01" else "00") ++ " " ++ toHexArg r.stdout ++
            String.join (r.tree.map fun (p, c) => " " ++ toHexArg p ++ " " ++ toHexArg c))
